@@ -86,7 +86,15 @@ def _get_target_times(
     evolution_times_rel.add(1.0)
     target_times_rel = evolution_times_rel | _unique_observable_times(config)
     target_times: list[float] = sorted({t * duration for t in target_times_rel})
-    return target_times
+    # i * dt / duration * duration is not always i * dt: merge times that differ
+    # only by rounding, keeping the later one (so that the grid still ends at
+    # duration) except for the first (so that it still starts at 0)
+    merged: list[float] = []
+    for t in reversed(target_times):
+        if not merged or merged[-1] - t > 1e-9 * duration:
+            merged.append(t)
+    merged[-1] = target_times[0]
+    return merged[::-1]
 
 
 def _extract_omega_delta_phi(
